@@ -471,7 +471,12 @@ template<typename CharT>
 CharT& base_str<CharT>::operator[](uintptr_t index)
 {
     // Used for result for invalid indices
-    assert(m_data);
+    if (!m_data)
+    {
+        // an empty string has no buffer: every index is invalid
+        static CharT dummy;
+        return dummy;
+    }
 
     // We don't know if they'll write to it or not
     // if it's not a const object
